@@ -124,6 +124,22 @@ def programs():
     out["call.array-by-value"] = P([fn("g", "int", [(("arr", "int", (2,)), "t")], [("assign", ("idx", "t", [I(0)]), "=", I(100)), ("assign", ("idx", "t", [I(1)]), "+=", I(1)), ("return", B("+", ("idx", "t", [I(0)]), ("idx", "t", [I(1)])))], export=False),
                                     fn("f", "int", ii, [("decl", ("arr", "int", (2,)), "t", None), ("assign", ("idx", "t", [I(0)]), "=", V("a")), ("assign", ("idx", "t", [I(1)]), "=", V("b")), ("decl", "int", "r", ("call", "g", [V("t")])),
                                                         ("decl", "int", "q", ("call", "g", [V("t")])), ("return", B("+", B("*", B("+", V("r"), V("q")), I(1000)), B("+", B("*", ("idx", "t", [I(0)]), I(10)), ("idx", "t", [I(1)]))))])], inputs={"a": "0..9", "b": "0..9"})
+    # a loop with break / continue whose body calls a function of the same shape (same block numbering): control flow of the caller is its own
+    helper_body = [("decl", "int", "s", I(0)), ("decl", "int", "j", I(0)), ("while", B("<", V("j"), V("m")), [("assign", V("j"), "=", B("+", V("j"), I(1))), ("if", B("==", V("j"), I(2)), [("continue",)], None),
+                                                                                                          ("if", B(">", V("j"), I(3)), [("break",)], None), ("assign", V("s"), "+=", V("j"))]), ("return", V("s"))]
+    out["call.loops-in-both"] = P([fn("helper", "int", [("int", "m")], helper_body, export=False),
+                                   fn("f", "int", [("int", "n")], [("decl", "int", "s", I(0)), ("decl", "int", "j", I(0)),
+                                                                   ("while", B("<", V("j"), V("n")), [("assign", V("j"), "=", B("+", V("j"), I(1))), ("if", B("==", V("j"), I(2)), [("continue",)], None),
+                                                                                                      ("if", B(">", V("j"), I(3)), [("break",)], None), ("assign", V("s"), "+=", ("call", "helper", [V("j")]))]),
+                                                                   ("return", V("s"))])], inputs={"n": "0..5"})
+    # (same idea with different shapes: block numbers coincide while the positions of the blocks in the instruction streams differ)
+    out["call.loops-in-both-2"] = P([fn("count", "int", [("int", "limit")], [("decl", "int", "c", I(0)), ("decl", "int", "k", I(0)),
+                                                                            ("while", B("<", V("k"), I(10)), [("assign", V("k"), "=", B("+", V("k"), I(1))), ("if", B(">", V("k"), V("limit")), [("break",)], None),
+                                                                                                              ("assign", V("c"), "=", B("+", V("c"), I(1)))]), ("return", V("c"))], export=False),
+                                     fn("f", "int", [("int", "n")], [("decl", "int", "r", I(0)),
+                                                                     ("for", ("decl", "int", "i", I(0)), B("<", V("i"), V("n")), ("expr", ("pre", "++", "i")),
+                                                                      [("decl", "int", "c", ("call", "count", [V("i")])), ("if", B("==", V("c"), I(2)), [("continue",)], None), ("if", B("==", V("c"), I(4)), [("break",)], None),
+                                                                       ("assign", V("r"), "=", B("+", V("r"), V("c")))]), ("return", V("r"))])], inputs={"n": "0..6"})
     # --- globals
     out["global.rw"] = P([fn("f", "int", [("int", "a")], [("assign", V("g"), "=", B("+", V("g"), V("a"))), ("assign", V("h"), "=", B("*", V("g"), I(2))), ("return", B("-", V("h"), V("a")))])],
                          globals_=[("int", "g"), ("int", "h")], inputs={"a": "int", "@g": "int", "@h": "int"})
@@ -255,10 +271,13 @@ def _replay(src, prog, options):
     def mk(model, clause):
         kw, gl = _concrete_inputs(prog, model)
         return script("""
-            import io, contextlib, copy
+            import io, contextlib, copy, signal
             from nsl import Compiler, LinearIR, VM
             src = {{src}}
             kw, gl, options = {{kw}}, {{gl}}, {{options}}
+            def _late(*a):
+                print(src); print('inputs', kw, gl); print('the VM has not returned after 20 s; reference semantics (C01):', {{want}}); print('REPLAY-CONFIRMED', flush=True); import os; os._exit(0)
+            signal.signal(signal.SIGALRM, _late); signal.alarm(20)
             res = []
             for opts in ({}, options):
                 try:
@@ -312,7 +331,12 @@ def _run_program(R, oid, name, prog, options, minimal, fn):
         gref = {k: (list(v) if isinstance(v, list) else v) for k, v in gl.items()}
         it = rs.Interp(prog, gref)
         want = it.invoke(prog["call"], **kw)
-        got, vm = vs.invoke(r, prog["call"], setglobals=gvm, **kw)
+        from pyvc.sym import PathTimeout
+        try:
+            got, vm = vs.invoke(r, prog["call"], setglobals=gvm, **kw)
+        except PathTimeout:
+            # the reference interpreter has finished this path (in at most 4000 steps); the VM has not come back within the path budget
+            return [("terminates", z3.BoolVal(False), f"the reference semantics finish this run in {it.steps} steps, the VM did not return within the path budget")]
         goals = [("result", _eqv(got, want), f"VM returned a value of type {type(got).__name__}")]
         for g in gl:
             goals.append(("globals", _eqv(vm.GetGlobal(g), gref[g]), f"global {g}"))
@@ -324,7 +348,7 @@ def _run_program(R, oid, name, prog, options, minimal, fn):
 def _mk(kind, part, parts):
     options = {"optimize": True} if kind == "optimize" else {}
     minimal = kind == "grouping"
-    props = {"scalar": ["C01", "C03", "C05", "C12", "C15"], "optimize": ["C02", "C14", "C05"], "grouping": ["C08", "C01"]}[kind]
+    props = {"scalar": ["C01", "C03", "C05", "C12", "C15", "C11"], "optimize": ["C02", "C14", "C05"], "grouping": ["C08", "C01"]}[kind]
 
     @family(f"E2E.{kind}.{part}", props=props,
             functions=["nsl.Compiler::Compiler.Compile", "nsl.parser::NslParser.Parse", "nsl.passes.ComputeTypes::ComputeTypeVisitor", "nsl.passes.AddImplicitCasts::AddImplicitCastVisitor",
